@@ -38,6 +38,14 @@ CHECKS = {
    technique='deterministic simulation: the E1 scheduler with the op mix restricted to unit / address-range / name-table lookups over the lazily filled, bisect-maintained unit cache; oracle = linear scans of the tables and unit extents + solo execution',
    text="Scope: the lookup clauses (address -> unit offset or nothing; offset -> containing unit / exact unit, for all lookup orders; names -> existing unit and entry). Lookups are interleaved and displaced as in C10 and compared with linear scans over the entries the tables expose and over the catalogue's unit extents. That ranges/names/headers equal the encoded bytes is pure decode and not decided by this technique.",
    note="Overlapping address ranges are outside the quantifier: soundness only there. Trusted: as C10."),
+ 'C11': dict(engine='storesim', category='exploration', design_ref='DESIGN.md section 3 / C11',
+   technique='deterministic simulation with fault injection: the storage container and the linked peer files are swapped under the unchanged library (simulated disk + stream_loader seam), stored size declarations and checksums are damaged; oracle = canonical DWARF view of the plain container',
+   text="Per image with debug info: the same logical debug bytes re-stored plainly, gABI-compressed (3 levels), legacy .zdebug (all / only-shrinking / seeded subsets), split behind a CRC-checked debug link (peer plain/gABI/legacy, served by the simulated loader), with/without follow_links and loader, supplementary-link pairs with compressed main/peer; the full canonical view (units, entries, line tables, both frame tables incl. decoded rows, type units, aranges, pubnames, loc/range lists) must equal the plain container's. Enumerated faults: declared size != inflated size (gABI and legacy, both directions) and checksum mismatch (wrong file, flipped byte, truncated peer, damaged checksum field) must be rejected. Enumerated configurations per image + seeded compositions.",
+   note="Trusted: dst/core/elfedit.py (raw-byte container transforms, cross-checked with GNU readelf during development), zlib. Only the two rejections the statement names are demanded. Images with duplicate debug section names, inconsistent shipped containers or without section headers are skipped and counted."),
+ 'C09': dict(engine='storesim', category='fault_enumeration', design_ref='DESIGN.md section 3 / C09',
+   technique='deterministic simulation with fault injection: loss of the section-header table (3 enumerated fault kinds on the simulated disk) with seeded query orders and cursor displacement over the DynamicSegment recovery path; oracle = section view of the intact image',
+   text="Scope: the equivalence clause. For every corpus image with PT_DYNAMIC whose dynamic pointers lie in PT_LOAD file extents: section headers lost in three ways (fields zeroed; + table overwritten with noise; + file truncated at the table) x 8/64 seeded query orders with cursor displacement; tags, strings, symbol count (when a hash table is present), symbols, name lookups, relocation tables and table offsets obtained through the DynamicSegment must equal the section view of the intact image field for field. The fault classes are enumerated completely over the eligible images.",
+   note="Both views share the tag/symbol decoders: a consistent decode error is invisible (pure decode, not claimed). Preconditions computed by an independent struct-based reader (dst/core/elfraw.py)."),
 }
 
 def main():
